@@ -32,12 +32,12 @@ def save_meta(n, m):
     json.dump(m, open(os.path.join(SEEDED, n, "meta.json"), "w"), indent=1)
 
 
-def cmd_import(pid, wt):
+def cmd_import(pid, wt, tag=""):
     for k in ("1", "2", "3"):
         src = os.path.join(wt, "_seeded", k)
         if not os.path.exists(os.path.join(src, "patch.diff")):
             continue
-        name = f"{pid}-{k}"
+        name = f"{pid}-{tag}{k}"
         dst = os.path.join(SEEDED, name)
         os.makedirs(dst, exist_ok=True)
         for f in ("patch.diff", "demo.py", "notes.md"):
@@ -122,7 +122,7 @@ def main():
     ap.add_argument("--procs", type=int, default=4)
     a = ap.parse_args()
     if a.cmd == "import":
-        cmd_import(a.args[0], a.args[1])
+        cmd_import(a.args[0], a.args[1], a.args[2] if len(a.args) > 2 else "")
     elif a.cmd == "verify":
         with ThreadPoolExecutor(max_workers=a.jobs) as ex:
             for n, out in ex.map(verify_one, names(a.args)):
